@@ -172,6 +172,15 @@ def monitor_tail(chk, shapes):
                 Ds[name].ex = ex
         groups = {}
         for st in res:
+            if st.status == 'panic':
+                # an installer that returns fewer/more results than offered apps breaks its contract
+                try:
+                    Fp = decode_path(ex, st, napps)
+                except Inconclusive:
+                    Fp = None
+                if Fp is not None and Fp.results is not None and len(Fp.results) != len(Fp.update_apps):
+                    stats['skipped_contract'] += 1
+                    continue
             if st.status != 'done':
                 Ds['announced-states'].no_bad_status([st])
                 continue
@@ -388,15 +397,16 @@ def check_reports(ex, st, F, D, DL):
         if not D.failed:
             D.failed = ('violated', '%s [outcome %s; path %s]' % (msg, cls, F.story), None, st)
     # which app-set apps are "known offered": app id equals the id of an offered response app
-    offered = []      # (app index, response app) in app-set order
+    offered = []      # (app index, response app) in app-set order; the version map keeps the last offer per id
     for i in range(len(F.apps)):
-        for ra in F.update_apps:
+        for ra in reversed(F.update_apps):
             eq = dval(ex, st, F.app_ids[i].t == ra.id.t)
             if eq is None:
                 D.failed = D.failed or ('inconclusive', 'path leaves an id comparison open', None, st)
                 return
             if eq == 1:
                 offered.append((i, ra))
+                break
     # expected reports: list of (kind, [(app index, event kind, response app or None)])
     exp = []
     if cls == 'parse-error':
@@ -488,11 +498,10 @@ def last_offer(offered):
 
 
 def lastra(F, ex, st, i):
-    r = None
-    for ra in F.update_apps:
+    for ra in reversed(F.update_apps):
         if dval(ex, st, F.app_ids[i].t == ra.id.t) == 1:
-            r = ra
-    return r
+            return ra
+    return None
 
 
 def params_is(p):
